@@ -110,6 +110,40 @@ def private_roundtrip(kind: int, pi: int, pwi: int, ci: int) -> bool:
     return ok
 
 
+PYCA_CIPHERS = ['aes128-cbc', 'aes256-cbc', 'des3-cbc']
+PYCA_HASHES = ['sha1', 'sha256', 'sha512']
+
+
+def pbes2_interop(kind: int, ci: int, hi: int, der: bool, pwi: int) -> bool:
+    """A PBES2-encrypted PKCS#8 export is readable by an independent
+    implementation (PyCA cryptography / OpenSSL) with the same passphrase and
+    yields the same key, for every PRF including the one that is encoded by
+    omission (hmacWithSHA1, the ASN.1 default); and a PyCA-encrypted PKCS#8 key
+    is imported by asyncssh."""
+    from cryptography.hazmat.primitives import serialization as ser
+    k = pick(KINDS, kind)
+    cipher = pick(PYCA_CIPHERS, ci)
+    hname = pick(PYCA_HASHES, hi)
+    passphrase = pick(['pw', 'p\xe4ss phrase', 'x'], pwi)
+    with notrace():
+        key = _key(k)
+        fmt = 'pkcs8-der' if der else 'pkcs8-pem'
+        data = key.export_private_key(fmt, passphrase=passphrase, cipher_name=cipher, hash_name=hname, pbe_version=2)
+        load = ser.load_der_private_key if der else ser.load_pem_private_key
+        try:
+            other = load(data, passphrase.encode('utf-8'))
+        except Exception:
+            return False                 # the independent decoder cannot read what asyncssh wrote
+        pub = other.public_key().public_bytes(ser.Encoding.OpenSSH, ser.PublicFormat.OpenSSH)
+        if asyncssh.import_public_key(pub).public_data != key.public_data:
+            return False
+        # and back: what PyCA writes (PBES2, its own choice of PRF/cipher) is imported by asyncssh
+        enc = ser.BestAvailableEncryption(passphrase.encode('utf-8'))
+        theirs = other.private_bytes(ser.Encoding.DER if der else ser.Encoding.PEM, ser.PrivateFormat.PKCS8, enc)
+        back = asyncssh.import_private_key(theirs, passphrase)
+        return back.public_data == key.public_data
+
+
 def _ref_p12(hash_name, passphrase, salt, count, n, idx):
     """RFC 7292 appendix B.2, written out independently"""
     h = lambda d: hashlib.new(hash_name, d).digest()
@@ -235,6 +269,9 @@ OBLIGATIONS = [
        shards=dict(kind=[0, 1, 2], ci=[1]), thorough_shards=dict(kind=[0, 1, 2], ci=[0, 1, 3, 5]), timeout=300, thorough_timeout=900,
        functions=[PK.SSHKey.export_private_key, PK.import_private_key, PBE.pkcs1_encrypt, PBE.pkcs8_encrypt, PBE.pkcs1_decrypt, PBE.pkcs8_decrypt],
        bounds='3 key types x %d export paths (unencrypted openssh/pkcs1/pkcs8 der+pem; pkcs1-pem x 5 ciphers; pkcs8 PBES1/PKCS#12 x 6 schemes; PBES2 x 6 ciphers x 3 PRFs) x 3 passphrases; wrong and missing passphrase rejected' % len(PRIV)),
+    Ob('pbes2_interop', pbes2_interop, sym=dict(ci=R(0, 2), hi=R(0, 2), der=B, pwi=R(0, 2)), shards=dict(kind=[0, 1, 2]), timeout=300,
+       functions=[PBE.pkcs8_encrypt, PBE.pkcs8_decrypt, PBE._pbes2_pbkdf2, PK.SSHKey.export_private_key, PK.import_private_key],
+       bounds='3 key types x {aes128-cbc, aes256-cbc, des3-cbc} x PRF {sha1 (encoded by omission), sha256, sha512} x DER/PEM x 3 passphrases, decoded by PyCA cryptography; PyCA BestAvailableEncryption output imported back'),
     Ob('p12_kdf', p12_kdf, sym=dict(n=R(1, 45), idx=R(1, 3), count=R(1, 3), sl=R(1, 9), pwi=R(0, 2)),
        shards=dict(idx=[1, 2, 3], count=[1, 2], sl=[1, 8], pwi=[0, 1, 2]), timeout=200,
        functions=[PBE._pbkdf_p12], bounds='output length 1..45, purpose id 1..3, 1..2 iterations, salt length 1 or 8, 3 passphrases (incl. empty, non-ASCII)'),
